@@ -28,7 +28,8 @@ REQUIRED_THEOREMS = [
     "Acn.C20.site_in_path", "Acn.C20.invalid_site_before_request", "Acn.C20.valid_site_requests_query",
     "Acn.C20.time_query_params", "Acn.C20.civil_roundtrip", "Acn.C20.days_roundtrip",
     "Acn.C20.calendar_succ", "Acn.C20.weekday_spec", "Acn.C20.parse_format", "Acn.C20.same_instant",
-    "Acn.C20.parse_http_date_same_instant", "Acn.C20.http_date_roundtrip",
+    "Acn.C20.parse_http_date_same_instant", "Acn.C20.http_date_roundtrip", "Acn.C20.parse_dates_faithful",
+    "Acn.C20.zone_off_spec", "Acn.C20.domain_years", "Acn.C20.parse_sound",
 ]
 BUDGET = {"quick": 1500, "thorough": 30000, "search": 8000}
 TRUSTED = [
@@ -50,7 +51,9 @@ RULE = ("per case one client call: get_sessions / get_sessions_by_time (count on
         "fake server of 0-6 chained pages (empty pages, duplicate-looking sessions, repeated ids, decoy pages, missing "
         "_links, next without href, dangling next, next cycle with cut-off, error documents, non-JSON bodies, "
         "transport errors, invalid/missing time zones, malformed time-series stamps), or a batch of "
-        "http_date/parse_http_date round trips and malformed date strings; non-trivial = at least two pages or an "
+        "http_date/parse_http_date round trips and malformed date strings, or a sweep of the calendar model against "
+        "datetime.date (quick: both ends of the datetime range + random 20 000-day windows; thorough: every day of "
+        "years 1-9999); non-trivial = at least two pages or an "
         "empty page or a fault on the chain, or a by_time call with a bound, or a date batch touching a DST "
         "transition; distinct by hash of the case")
 
@@ -889,6 +892,9 @@ def oracle(case, obs):
     if obs["is_count"]:
         if [_ckey(h["url"]) for h in obs["heads"]] != [_ckey(first)] or obs["gets"]:
             fails.append({"kind": "wrong_query", "detail": f"count requests {obs['heads']} {obs['gets']}, expected one HEAD {first}"})
+        for h in obs["heads"]:
+            if h["headers"] != {"Authorization": "Bearer tok3n"}:
+                fails.append({"kind": "wrong_query", "detail": f"count request headers {h['headers']}"})
         exp = case.get("total")
         if exp is not None and obs["count"] != exp:
             fails.append({"kind": "count_wrong", "detail": f"count={obs['count']} header={exp}"})
